@@ -1,25 +1,59 @@
 import Goyang.Lemmas.LoadOrderDump
 import Goyang.Lemmas.LoadOrderLoad
 import Goyang.Lemmas.LoadOrderKept
+import Goyang.Lemmas.LoadOrderWitness
+import Goyang.Props.C05
 import Goyang.Lemmas.LoadOrderPlug
 import Goyang.Model.Pipeline
 import Goyang.Model.TypesLite
 /-
 Property C05, load order: the same sources give the same result whatever the order in which they
-were loaded.  This file proves the open core statement `Props.C05.ProcessLoadOrderIrrelevant`
-(there only stated) — with the two hypotheses it needs: module names are identifiers (`NamesOk`,
-as in C13) and no two sources define the same (kind, name, revision) (`Distinct`; without it the
-statement is false, `distinct_needed`; for `NamesOk` see `names_rejected` at the end).
+were loaded.  This file proves the core statement `Props.C05.ProcessLoadOrderIrrelevant` (there
+only stated) — with the one hypothesis it needs: no two sources define the same (kind, name,
+revision) (`Distinct`; without it the statement is false: `distinct_needed`, and
+`process_load_order_unconditional_fails : ¬ Props.C05.ProcessLoadOrderIrrelevant` for the real
+pipeline `processFiles` with `plugFull`).
+
+What the quantifier "all module sets x all permutations of the load order" ranges over.  A
+*module set* is a collection of sources of which no two define the same header (kind, name,
+latest revision): `Modules` holds one module per header and `Modules.add` refuses a second load
+of a header (`Props.C13.duplicate_rejected`), so of two sources with one header only the first
+ever becomes part of the set — "the same sources" in two orders are then two different module
+sets (`distinct_needed`: the dumps differ).  `Distinct` says exactly that the load list is a
+module set.  Module names are arbitrary (the former hypothesis `NamesOk`, no `@` in a name, is
+gone): after the repair of D61 a load whose name contains `@` is refused in every order and
+leaves no trace (`names_rejected`, `refused_loads_leave_no_trace`); such loads are filtered out
+on both sides and the simulation below is applied to the rest.  The refusals themselves are
+order independent as well (`refused_load_errors_perm`, `load_outcomes_perm`).
+
+For load lists that are not module sets the strongest statement that holds is proved: the
+outcome — registry (`registry_determined_by_first_loads`) and canonical dump
+(`process_determined_by_first_loads`) — is a function of the FIRST load of every header; hence
+it is invariant under every rearrangement that keeps the loads of each header in their relative
+order (`process_stable_order_irrelevant`), and `Distinct` is the special case in which every
+permutation is such a rearrangement.
+
+Texts (`processFiles`, `Modules.Parse` atomic per text): `process_files_load_order_irrelevant`
+(pairwise different modules, arbitrary names) and `process_files_load_order_irrelevant_acceptable`
+(texts that are refused on their own — `@` name, one header twice inside the text — may be
+present: they are refused wherever they stand; the texts acceptable on their own must define
+pairwise different modules).  NOT proved: a first-load theorem at the level of texts when two
+texts that are both acceptable alone share a header (which texts are accepted then depends on
+the order through atomicity: a text refused for one duplicate header frees its other headers);
+the statement-level theorems cover lists of one-module texts.
 
 In the resolver model a loaded module is identified by its load sequence number `Mod.seq`
 (tree ids, `nodeMod`, visited sets, caches, pending augments, link sets, the identity dictionary
 and the type-resolution stack are keyed by it) and `Registry.mods` is in load order.  Another load
 order permutes those numbers.  The proof is a simulation through every stage of the pipeline
-(`Lemmas/LoadOrder*.lean`, about 3600 lines, core Lean only):
+(`Lemmas/LoadOrder*.lean`, about 4000 lines, core Lean only — except `LoadOrderWitness.lean`, which
+serves the refutation only and reaches one Mathlib module through `Lemmas.Find`):
 
 * `Lemmas.LoadOrder.regRel_of_perm` (on top of C13's registry invariant): two load orders of
   pairwise different modules give registries that hold the same modules under renamed sequence
   numbers, every key of both tables bound to corresponding modules (`RegRel σ r₁ r₂`);
+  `Lemmas.LoadOrder.loadAll_kept` / `regRel_of_sameFirsts` (`Lemmas/LoadOrderKept.lean`): a refused
+  load leaves the registry as it was, so any load list can be replaced by its accepted loads;
 * every registry lookup, `findGrouping`, `toEntry` (with its caches and visited set), `find` /
   `walkParts`, linking, the augment loop, `FixChoice`, the leftover pass, deviations commute with
   the renaming `σ` (`toEntry_ren`, `find_ren`, `augmentPhase_rel`, `applyDeviations_ren`,
@@ -41,12 +75,14 @@ open Goyang.Lemmas.Registry (NoAt)
 open Goyang.Lemmas.Registry renaming hdr → header
 open Goyang.Spec.Registry (Header)
 
-/-- Module names are identifiers: no `@` (as in C13). -/
+/-- Module names are identifiers: no `@` (as in C13).  No longer a hypothesis of any theorem of
+this file; kept for the witnesses (`names_rejected`) and for `refused_loads_leave_no_trace`. -/
 def NamesOk (loads : List Stmt) : Prop := ∀ s ∈ loads, '@' ∉ s.arg.toList
 
-/-- No two loads have the same header (kind, name, latest revision): nothing is rejected as a
-duplicate.  (Of two loads with one header the second is rejected, `Props.C13.duplicate_rejected`:
-which text survives depends on the order, so such sets are outside the claim.) -/
+/-- The loads are a module set: no two have the same header (kind, name, latest revision), nothing
+is rejected as a duplicate.  (Of two loads with one header the second is rejected,
+`Props.C13.duplicate_rejected`: which text survives depends on the order; for such lists see
+`process_determined_by_first_loads`.) -/
 def Distinct (loads : List Stmt) : Prop := (loads.map header).Nodup
 
 instance (loads : List Stmt) : Decidable (NamesOk loads) := by unfold NamesOk; infer_instance
@@ -76,7 +112,7 @@ theorem processAll_renaming_invariant {σ : Nat → Nat} {r₁ r₂ : Registry} 
   rw [e₂, dumpOutcome_ren h, ← e₁]
 
 /-- **Load order does not matter**, for any plugged layers that respect the renaming.  Loading
-pairwise different modules in two orders and processing gives the same canonical dump: the same
+pairwise different modules (arbitrary names) in two orders and processing gives the same canonical dump: the same
 error set, or the same trees node by node.  `plug` builds the plugged layers from the registry
 (as `plugFull` does). -/
 theorem process_load_order_irrelevant_of_plug {loads₁ loads₂ : List Stmt} (hperm : loads₁.Perm loads₂)
@@ -139,36 +175,42 @@ theorem process_files_load_order_irrelevant (opts : Opts) {files₁ files₂ : L
     (processFiles opts files₁).toOption.map dumpOutcome = (processFiles opts files₂).toOption.map dumpOutcome := by
   have hps : (stmtsOf files₁).Perm (stmtsOf files₂) := List.Perm.flatMap_right _ hperm
   have hd₂ : Distinct (stmtsOf files₂) := (hps.map header).nodup_iff.mp hd
-  unfold processFiles
-  cases h1 : files₁.findSome? fun f => outsideL "" f.stmts with
-  | some why =>
-    cases h2 : files₂.findSome? fun f => outsideL "" f.stmts with
-    | some why' => rfl
-    | none =>
-      exfalso
-      rw [List.findSome?_eq_none_iff] at h2
-      obtain ⟨f, hf, hw⟩ := List.exists_of_findSome?_eq_some h1
-      rw [h2 f (hperm.mem_iff.mp hf)] at hw
-      cases hw
-  | none =>
-    cases h2 : files₂.findSome? fun f => outsideL "" f.stmts with
-    | some why' =>
-      exfalso
-      rw [List.findSome?_eq_none_iff] at h1
-      obtain ⟨f, hf, hw⟩ := List.exists_of_findSome?_eq_some h2
-      rw [h1 f (hperm.mem_iff.mpr hf)] at hw
-      cases hw
-    | none =>
-      simp only [Except.toOption, Option.map_some, Option.some.injEq]
-      -- the texts refused for a name leave no trace, in either order
-      have hpf : (files₁.filter goodFile).Perm (files₂.filter goodFile) := hperm.filter _
-      have hd' : Distinct (stmtsOf (files₁.filter goodFile)) :=
-        List.Nodup.sublist ((sublist_flatMap_filter files₁).map header) hd
-      have hd₂' : Distinct (stmtsOf (files₂.filter goodFile)) :=
-        List.Nodup.sublist ((sublist_flatMap_filter files₂).map header) hd₂
-      rw [loadFiles_filter_good files₁, loadFiles_filter_good files₂,
-        loadFiles_eq_loadAll _ (noAt_filter_goodFile files₁) hd', loadFiles_eq_loadAll _ (noAt_filter_goodFile files₂) hd₂']
-      exact process_load_order_irrelevant (List.Perm.flatMap_right _ hpf) hd' opts
+  apply processFiles_perm_of_dump opts hperm
+  -- the texts refused for a name leave no trace, in either order
+  have hpf : (files₁.filter goodFile).Perm (files₂.filter goodFile) := hperm.filter _
+  have hd' : Distinct (stmtsOf (files₁.filter goodFile)) :=
+    List.Nodup.sublist ((sublist_flatMap_filter files₁).map header) hd
+  have hd₂' : Distinct (stmtsOf (files₂.filter goodFile)) :=
+    List.Nodup.sublist ((sublist_flatMap_filter files₂).map header) hd₂
+  rw [loadFiles_filter_good files₁, loadFiles_filter_good files₂,
+    loadFiles_eq_loadAll _ (noAt_filter_goodFile files₁) hd', loadFiles_eq_loadAll _ (noAt_filter_goodFile files₂) hd₂']
+  exact process_load_order_irrelevant (List.Perm.flatMap_right _ hpf) hd' opts
+
+/-- The text would be accepted by a fresh `Modules`: every name is free of `@` and no two of its
+statements have the same header.  (A text that is not is refused wherever it stands.) -/
+def AcceptableAlone (f : SrcFile) : Bool := okAlone f
+
+/-- **Texts, the form the correspondence runner checks**: a text that `Modules.Parse` refuses on
+its own (a name with `@`, one header twice in the text) is refused in every load order and leaves
+no trace; when the texts that are acceptable on their own define pairwise different modules, the
+result of `processFiles` does not depend on the order of the texts.  (Only two texts that are
+both acceptable alone and define one header make the outcome depend on the order.) -/
+theorem process_files_load_order_irrelevant_acceptable (opts : Opts) {files₁ files₂ : List SrcFile}
+    (hperm : files₁.Perm files₂) (hd : Distinct (stmtsOf (files₁.filter AcceptableAlone))) :
+    (processFiles opts files₁).toOption.map dumpOutcome = (processFiles opts files₂).toOption.map dumpOutcome := by
+  have hpf : (files₁.filter okAlone).Perm (files₂.filter okAlone) := hperm.filter _
+  have hps : (stmtsOf (files₁.filter okAlone)).Perm (stmtsOf (files₂.filter okAlone)) := List.Perm.flatMap_right _ hpf
+  have hd₂ : Distinct (stmtsOf (files₂.filter okAlone)) := (hps.map header).nodup_iff.mp hd
+  apply processFiles_perm_of_dump opts hperm
+  rw [loadFiles_filter_okAlone files₁, loadFiles_filter_okAlone files₂,
+    loadFiles_eq_loadAll _ (noAt_filter_okAlone files₁) hd, loadFiles_eq_loadAll _ (noAt_filter_okAlone files₂) hd₂]
+  exact process_load_order_irrelevant hps hd opts
+
+/-- The registry after any list of texts is the registry after the texts that are acceptable on
+their own. -/
+theorem texts_refused_alone_leave_no_trace (files : List SrcFile) :
+    loadFiles files = loadFiles (files.filter AcceptableAlone) :=
+  loadFiles_filter_okAlone files
 
 /-! ### several loads with one header: the first one decides
 
@@ -296,7 +338,7 @@ duplicate of an earlier `@`-free load with the same header, or accepted. -/
 theorem load_outcomes (loads : List Stmt) : (Registry.loadAll loads).2 = outsAfter [] loads :=
   loadAll_outs loads
 
-/-! ### the hypotheses are satisfiable, and they are needed
+/-! ### the hypothesis is satisfiable, and it is needed
 
 `exA` includes its submodule `exAs` (which uses a typedef), `exB` imports `exA`, augments its
 container and deviates its leaf: linking, submodule merging, type resolution, the augment loop
@@ -359,6 +401,54 @@ theorem distinct_needed :
   revert hl
   decide +kernel
 
+/-- the two witness texts are inside the resolver model -/
+theorem dup_inside_model : outsideL "" [dupA] = none ∧ outsideL "" [dupA'] = none := by
+  have h1 := split_colon_length "module" (by decide)
+  have h2 := split_colon_length "namespace" (by decide)
+  have h3 := split_colon_length "prefix" (by decide)
+  have h4 := split_colon_length "container" (by decide)
+  constructor <;> simp [dupA, dupA', st, outsideL, outside, h1, h2, h3, h4]
+
+/-- the two witness modules define no typedef -/
+theorem dup_no_typedefs : Types.dictTypedefs ⟨0, dupA⟩ = [] ∧ Types.dictTypedefs ⟨0, dupA'⟩ = [] := by
+  constructor <;> simp [dupA, dupA', st, Types.dictTypedefs, Types.collect, Types.collectL, Stmt.all, Stmt.subs, Stmt.kw]
+
+/-- **The unconditional statement `Props.C05.ProcessLoadOrderIrrelevant` is false** — of the
+model of the whole pipeline (`processFiles`: `Modules.Parse` text by text, `Modules.Process` with
+the full type and identity layers), on the witness of `distinct_needed`: two texts of module `a`.
+The text loaded first is the one processed; the dumps of the two orders differ.  (The same
+happens in the Go code, by design: `Modules.add` answers the second text with `duplicate
+module`.)  The quantifier of the property therefore ranges over module sets (`Distinct`). -/
+theorem process_load_order_unconditional_fails : ¬ Props.C05.ProcessLoadOrderIrrelevant := by
+  intro h
+  have hh := h {} [⟨"a1.yang", [dupA]⟩, ⟨"a2.yang", [dupA']⟩] [⟨"a2.yang", [dupA']⟩, ⟨"a1.yang", [dupA]⟩]
+    (List.Perm.swap _ _ _)
+  unfold processFiles at hh
+  have o1 : List.findSome? (fun f : SrcFile => outsideL "" f.stmts) [⟨"a1.yang", [dupA]⟩, ⟨"a2.yang", [dupA']⟩] = none := by
+    simp only [List.findSome?, dup_inside_model.1, dup_inside_model.2]
+  have o2 : List.findSome? (fun f : SrcFile => outsideL "" f.stmts) [⟨"a2.yang", [dupA']⟩, ⟨"a1.yang", [dupA]⟩] = none := by
+    simp only [List.findSome?, dup_inside_model.1, dup_inside_model.2]
+  rw [o1, o2] at hh
+  simp only [Except.toOption, Option.map_some, Option.some.injEq] at hh
+  have r1 : loadFiles [⟨"a1.yang", [dupA]⟩, ⟨"a2.yang", [dupA']⟩] = (Registry.loadAll [dupA]).1 := by rfl
+  have r2 : loadFiles [⟨"a2.yang", [dupA']⟩, ⟨"a1.yang", [dupA]⟩] = (Registry.loadAll [dupA']).1 := by rfl
+  have p1 : plugFull (Registry.loadAll [dupA]).1 = plugNoTd (Registry.loadAll [dupA]).1 := by
+    apply plugFull_noTypedefs
+    intro m hm
+    have : (Registry.loadAll [dupA]).1.mods = [⟨0, dupA⟩] := by rfl
+    rw [this, List.mem_singleton] at hm
+    rw [hm]; exact dup_no_typedefs.1
+  have p2 : plugFull (Registry.loadAll [dupA']).1 = plugNoTd (Registry.loadAll [dupA']).1 := by
+    apply plugFull_noTypedefs
+    intro m hm
+    have : (Registry.loadAll [dupA']).1.mods = [⟨0, dupA'⟩] := by rfl
+    rw [this, List.mem_singleton] at hm
+    rw [hm]; exact dup_no_typedefs.2
+  rw [r1, r2, p1, p2] at hh
+  have hl := congrArg String.length hh
+  revert hl
+  decide +kernel
+
 /-- A module whose *name* contains `@` (not a YANG identifier; goyang does not check identifiers)
 and a module whose full name `name@revision` is the same string. -/
 def atA : Stmt :=
@@ -371,8 +461,9 @@ def atB : Stmt :=
 /-- **The ambiguity behind `NamesOk` is gone from the code** (defect D61, repaired: `Modules.add`
 refuses a name containing `@`).  Before the repair the key `m@2020` was claimed by both modules
 and whichever was loaded first kept it, so the two load orders gave different dumps; now `m@2020`
-is refused in both orders, the registries are equal and so are the dumps.  (`NamesOk` remains a
-hypothesis of the theorems above; `Props.C13` shows the registry half without it.) -/
+is refused in both orders, the registries are equal and so are the dumps.  (`NamesOk` is no longer
+a hypothesis of the theorems above: this witness is an instance of `process_load_order_irrelevant`,
+see the examples below.) -/
 theorem names_rejected :
     Distinct [atA, atB] ∧ [atA, atB].Perm [atB, atA] ∧ ¬ NamesOk [atA, atB] ∧
     (Registry.loadAll [atA, atB]).2.map Option.isSome = [true, false] ∧
@@ -382,5 +473,70 @@ theorem names_rejected :
   have hreg : (Registry.loadAll [atA, atB]).1 = (Registry.loadAll [atB, atA]).1 := by rfl
   refine ⟨by decide, List.Perm.swap _ _ _, by decide, by decide, by decide, ?_⟩
   rw [hreg]
+
+/-! ### the theorems without `NamesOk`, and the theorems about several loads of one header, apply -/
+
+/-- an instance of `process_load_order_irrelevant` with a name that contains `@` -/
+example (opts : Opts) : ¬ NamesOk [atA, exA, exAs, atB] ∧
+    dumpOutcome (processAll (Registry.loadAll [atA, exA, exAs, atB]).1 opts (plugFull (Registry.loadAll [atA, exA, exAs, atB]).1)) =
+      dumpOutcome (processAll (Registry.loadAll [atB, exAs, exA, atA]).1 opts (plugFull (Registry.loadAll [atB, exAs, exA, atA]).1)) :=
+  ⟨by decide, process_load_order_irrelevant (perm_rev4 _ _ _ _) (by decide) opts⟩
+
+/-- the same for texts: the text with the `@` name holds a second module, which goes with it -/
+example (opts : Opts) :
+    (processFiles opts [⟨"x.yang", [atA, exB]⟩, ⟨"a.yang", [exA]⟩, ⟨"as.yang", [exAs]⟩]).toOption.map dumpOutcome =
+      (processFiles opts [⟨"as.yang", [exAs]⟩, ⟨"a.yang", [exA]⟩, ⟨"x.yang", [atA, exB]⟩]).toOption.map dumpOutcome :=
+  process_files_load_order_irrelevant opts (perm_rev3 _ _ _) (by decide)
+/-- a text with one header twice (`exB`, `exB`) is refused in every order too: not `Distinct` -/
+example (opts : Opts) : ¬ Distinct (stmtsOf [⟨"b.yang", [exB, exB]⟩, ⟨"a.yang", [exA]⟩, ⟨"as.yang", [exAs]⟩]) ∧
+    (processFiles opts [⟨"b.yang", [exB, exB]⟩, ⟨"a.yang", [exA]⟩, ⟨"as.yang", [exAs]⟩]).toOption.map dumpOutcome =
+      (processFiles opts [⟨"as.yang", [exAs]⟩, ⟨"a.yang", [exA]⟩, ⟨"b.yang", [exB, exB]⟩]).toOption.map dumpOutcome :=
+  ⟨by decide, process_files_load_order_irrelevant_acceptable opts (perm_rev3 _ _ _) (by decide)⟩
+example : (loadFiles [⟨"x.yang", [atA, exB]⟩, ⟨"a.yang", [exA]⟩, ⟨"as.yang", [exAs]⟩]).mods.map (·.stmt.arg) = ["a", "as"] := by
+  decide
+
+/-- Two load lists with two texts of module `a` (`dupA` first in both), a refused `@` name and
+another module: not `Distinct`, not `NamesOk`, but the loads of every header keep their order. -/
+def dupL₁ : List Stmt := [dupA, atA, exB, dupA']
+def dupL₂ : List Stmt := [exB, dupA, dupA', atA]
+
+theorem dupL_stable : StableRearrangement dupL₁ dupL₂ := by
+  intro h
+  have eA : header dupA = ⟨false, "a", ""⟩ := by decide
+  have eA' : header dupA' = ⟨false, "a", ""⟩ := by decide
+  have eB : header exB = ⟨false, "b", ""⟩ := by decide
+  have eX : header atA = ⟨false, "m@2020", ""⟩ := by decide
+  simp only [dupL₁, dupL₂, List.filter_cons, List.filter_nil, eA, eA', eB, eX]
+  by_cases h1 : (⟨false, "a", ""⟩ : Header) = h
+  · subst h1; simp
+  · by_cases h2 : (⟨false, "b", ""⟩ : Header) = h
+    · subst h2; simp
+    · by_cases h3 : (⟨false, "m@2020", ""⟩ : Header) = h
+      · subst h3; simp
+      · simp [h1, h2, h3]
+
+example : ¬ Distinct dupL₁ ∧ ¬ NamesOk dupL₁ ∧ dupL₁.Perm dupL₂ ∧ SameFirstLoads dupL₁ dupL₂ := by
+  refine ⟨by decide, by decide, ?_, sameFirstLoads_of_stable dupL_stable⟩
+  -- [dupA, atA, exB, dupA'] ~ [exB, dupA, dupA', atA]
+  exact ((List.Perm.swap exB atA [dupA']).cons dupA).trans
+    ((List.Perm.swap exB dupA (atA :: [dupA'])).trans (((List.Perm.swap dupA' atA []).cons dupA).cons exB))
+/-- the instance of `process_stable_order_irrelevant` -/
+example (opts : Opts) :
+    dumpOutcome (processAll (Registry.loadAll dupL₁).1 opts (plugFull (Registry.loadAll dupL₁).1)) =
+      dumpOutcome (processAll (Registry.loadAll dupL₂).1 opts (plugFull (Registry.loadAll dupL₂).1)) :=
+  process_stable_order_irrelevant dupL_stable opts
+/-- what is accepted and what is refused, in the two orders -/
+example : (Registry.loadAll dupL₁).2.map Lemmas.Registry.toOutcome = [.ok, .badName, .ok, .dup] ∧
+    (Registry.loadAll dupL₂).2.map Lemmas.Registry.toOutcome = [.ok, .ok, .dup, .badName] ∧
+    (acceptedLoads dupL₁).map (·.file) = ["a1.yang", "b.yang"] ∧ (acceptedLoads dupL₂).map (·.file) = ["b.yang", "a1.yang"] := by
+  decide
+/-- the first loads are not the same when the two texts of `a` change places -/
+example : ¬ SameFirstLoads [dupA, dupA'] [dupA', dupA] := by
+  intro h
+  have := h ⟨false, "a", ""⟩ (by decide)
+  have e : (firstLoad ⟨false, "a", ""⟩ [dupA, dupA']).map (·.file) = (firstLoad ⟨false, "a", ""⟩ [dupA', dupA]).map (·.file) := by
+    rw [this]
+  revert e
+  decide
 
 end Goyang.Props.C05Order
